@@ -491,6 +491,63 @@ struct Codec<CopyCounted<N>>
     static void assign(T& dst, std::uint64_t c) noexcept { dst = make(c); }
 };
 
+// Trivially copy/move CONSTRUCTIBLE and trivially destructible, but with a user-provided assignment that is not a byte
+// copy: `home` is given at construction and travels with the object when it is relocated (construction), while
+// assignment and std::swap transfer `id` only. No ADL swap. Exchanging two such objects byte-wise (instead of through
+// the type's own assignment / std::swap) moves `home`, which a std::vector of tuples would never do.
+inline std::uint32_t g_sticky_counter = 0;
+template <std::size_t N>
+struct __attribute__((packed)) Sticky
+{
+    static_assert(N >= 8);
+    std::uint32_t id;
+    std::uint32_t home;
+    unsigned char pad[N - 8];
+    explicit Sticky(std::uint32_t v) noexcept : id(v), home(++g_sticky_counter) { std::memset(pad, 0x4D, sizeof(pad)); }
+    Sticky(const Sticky&) = default;
+    Sticky(Sticky&&) = default;
+    Sticky& operator=(const Sticky& o) noexcept
+    {
+        id = o.id;
+        return *this;
+    }
+    ~Sticky() = default;
+    friend bool operator==(const Sticky& a, const Sticky& b) noexcept { return a.id == b.id; }
+    friend bool operator!=(const Sticky& a, const Sticky& b) noexcept { return a.id != b.id; }
+    friend bool operator<(const Sticky& a, const Sticky& b) noexcept { return a.id < b.id; }
+};
+static_assert(std::is_trivially_copy_constructible_v<Sticky<9>> && std::is_trivially_move_constructible_v<Sticky<9>> &&
+              std::is_trivially_destructible_v<Sticky<9>> && !std::is_trivially_move_assignable_v<Sticky<9>> &&
+              !std::is_trivially_copyable_v<Sticky<9>>);
+template <class T>
+struct IsSticky : std::false_type
+{
+};
+template <std::size_t N>
+struct IsSticky<Sticky<N>> : std::true_type
+{
+};
+
+template <std::size_t N>
+struct Codec<Sticky<N>>
+{
+    using T = Sticky<N>;
+    static constexpr bool TRACKED = false;
+    static constexpr bool MOVE_ONLY = false;
+    static constexpr bool IDENTITY_EQ = false;
+    static constexpr bool ALLOCATES = false;
+    static constexpr MovedState MOVED = MS_SAME;
+    static constexpr std::uint64_t canon(std::uint64_t v) noexcept { return v & 0xFFFFFFFFu; }
+    static T make(std::uint64_t c) noexcept { return T(static_cast<std::uint32_t>(c)); }
+    static std::uint64_t read(const T& x) noexcept
+    {
+        std::uint32_t id;
+        std::memcpy(&id, &x, sizeof(id));
+        return id;
+    }
+    static void assign(T& dst, std::uint64_t c) noexcept { dst = make(c); }
+};
+
 // std::pair<u32,u32>: trivially copy/move *constructible* and trivially destructible but NOT trivially copyable
 // (user-provided assignment) -- the type class a wrong trait choice in the relocation paths mishandles
 using Pair32 = std::pair<std::uint32_t, std::uint32_t>;
